@@ -22,11 +22,17 @@ Get == /\ IsEvent("mc.get")
           Report(l, (IF ev.rk = ev.k /\ ev.rn >= 1 /\ ev.rn <= ev.maxv THEN {} ELSE {"Inv_C07_HitOwnValue"})
                     \cup (IF ev.intact /\ ev.st = ev.rk * 100000 + ev.rn /\ ev.ex = ev.tagex THEN {} ELSE {"Inv_C07_HitIntact"}))
        /\ nhits' = nhits + 1
+\* C08, last clause (MemCache!NxNeverDisplaces seen from outside): a plain store and a store-if-absent of one
+\* fresh key were released together; after both returned the key holds the plain store's version (1), never the
+\* store-if-absent's (2); 0 = miss (not expected on a cache with room, tolerated)
+Pair == /\ IsEvent("mc.pair")
+        /\ Report(l, IF Trace[l].got \in {0, 1} THEN {} ELSE {"Inv_C08_NxKeepsPositive"})
+        /\ UNCHANGED nhits
 Sum == /\ IsEvent("mc.sum")
        /\ IF Trace[l].hits < 1000 \/ Trace[l].stores < 1000 THEN Harness(l, "too few hits or stores") ELSE TRUE
        /\ UNCHANGED nhits
 Crash == IsEvent("crash") /\ Report(l, {"Inv_C07_HitOwnValue"}) /\ UNCHANGED nhits
-Next == Get \/ Sum \/ Crash
+Next == Get \/ Pair \/ Sum \/ Crash
 Spec == Init /\ [][Next]_tvars
 Post == Consumed
 =============================================================================
